@@ -263,7 +263,10 @@ def load_findings(prop: str) -> List[Dict[str, Any]]:
     if d.is_dir():
         for g in sorted(d.glob("*.json")):
             out += [e for e in json.loads(g.read_text()).get("findings", []) if e.get("property") == prop]
-    return out
+    seen: Dict[str, Dict[str, Any]] = {}
+    for e in out:
+        seen[e["id"]] = e  # findings.d (source) and known_findings.json (merged copy) hold the same entries
+    return list(seen.values())
 
 
 # --------------------------------------------------------------------------------------
